@@ -58,8 +58,8 @@ def dump(db, f, **options):
                         start_little=True)] = {
                     "name": signal.name,
                     "bit_length": signal.size,
-                    "factor": signal.factor,
-                    "offset": signal.offset}
+                    "factor": number_converter(signal.factor),
+                    "offset": number_converter(signal.offset)}
             export_dict['messages'].append(
                 {"name": frame.name, "id": hex(frame.arbitration_id.id), "signals": signals})
 
